@@ -853,7 +853,7 @@ func runV2(ci *chainImporter, repo, outPath, manifestPath string) int {
 				for _, e := range refused {
 					fmt.Fprintln(os.Stderr, "translator(v2): REFUSED (stub emitted):", e)
 				}
-				fmt.Fprintf(buf, "(* %s:%d-%d  REFUSED by the translator: %s *)\n%s\n\n", relf, pos.Line, end.Line, strings.ReplaceAll(strings.Join(refused, " | "), "*)", "* )"), stub)
+				fmt.Fprintf(buf, "(* %s:%d-%d  REFUSED by the translator: %s *)\n%s\n\n", relf, pos.Line, end.Line, strings.ReplaceAll(strings.ReplaceAll(strings.Join(refused, " | "), "*)", "* )"), "(*", "( *"), stub)
 				items = append(items, genItem{Kind: "func2-refused", Pkg: ps.tg.Pkg, Name: fi.name, Pos: fmt.Sprintf("%s:%d-%d", relf, pos.Line, end.Line), Val: strings.Join(refused, " | ")})
 				continue
 			}
@@ -1021,8 +1021,9 @@ func (t *tr2) function(fd *ast.FuncDecl) string {
 		r := sig.Recv()
 		t.mutRecv = r
 		rn := ident(r.Name())
+		inner := rty // what `return v` carries (the R of the loops); the definition returns (receiver, v)
 		rty = "(" + t.ctype(fd, r.Type()) + " * " + rty + ")"
-		c = &fctx{rty: rty, ret: func(v string) string { return "(GOk (" + rn + ", " + v + "))" }}
+		c = &fctx{rty: inner, ret: func(v string) string { return "(GOk (" + rn + ", " + v + "))" }}
 		if sig.Results().Len() == 0 {
 			end = "(GOk (" + rn + ", tt))"
 		}
